@@ -189,6 +189,8 @@ def canonicalise(scenario, trace):
         t = line.split()
         if t[0] == "react" and t[3] == "rebuild":
             frames.add(int(t[1]))
+        elif t[0] == "reactev" and t[5] == "rebuild":
+            frames.add(int(t[1]))
         elif t[0] == "post" and t[1] == "rebuild":
             pending_post = True
         elif t[0] == "frame":
